@@ -42,6 +42,7 @@ def opTxtFields (j : Json) : M Json := do
   pure <| Json.mkObj [("line", str line),
     ("parsed_line", Json.arr ((Txt.parseFields line).map str).toArray),
     ("parsed_text", Json.arr ((Txt.parseFields text.toList).map str).toArray),
-    ("clean", Json.arr ((names.map fun s => Json.bool (Txt.cleanField s.toList)).toArray))]
+    ("clean", Json.arr ((names.map fun s => Json.bool (Txt.cleanField s.toList)).toArray)),
+    ("stripped", str (Txt.removeAll ((← (← j.getObjVal? "prefix").getStr?).toList) ((← (← j.getObjVal? "pline").getStr?).toList)))]
 
 end Drv
